@@ -2,6 +2,7 @@
 from __future__ import annotations
 
 import math
+import time
 from fractions import Fraction
 
 import numpy as np
@@ -299,11 +300,14 @@ def float_plain_kernel_body():
     blo, bhi = bounds[0][0], bounds[0][1]
     t = sx.sym_real("t")
     sx.assume((t >= blo) & (t <= bhi))
-    tr.np.known_doubles = [low.e]
+    concrete = sx.cur().concrete
+    if not concrete:
+        tr.np.known_doubles = [low.e]
     v = tr._untransform_numerical_param(t, d, transform_log)                       # REAL code
-    for (h, a) in NPF64.last_nextafter:
-        sx.assume(sx.implies(low < high, SymReal(h) >= low))       # doubles low < high  =>  nextafter(high, -inf) >= low
-    NPF64.last_nextafter.clear()
+    if not concrete:
+        for (h, a) in NPF64.last_nextafter:
+            sx.assume(sx.implies(low < high, SymReal(h) >= low))       # doubles low < high  =>  nextafter(high, -inf) >= low
+        NPF64.last_nextafter.clear()
     sx.reach("untransformed")
     u4 = Fraction(4, 2 ** 53)
     if log and transform_log:
@@ -535,6 +539,76 @@ def make_tpe_stage_body(kind, step):
     return body
 
 
+def tpe_continuous_stage_body():
+    """continuous float under TPE: the real _MixtureOfProductDistribution.sample (truncated-normal branch) followed by the real
+    _ParzenEstimator._untransform. NOTHING is assumed about what the numeric kernel _truncnorm.rvs returns (its numerics are C18 and
+    outside this technique; with kernels centred hundreds of sigma away - observations made with another range - it does leave the
+    interval): the output stage itself must keep the parameter inside [low, high]"""
+    from optuna.samplers._tpe import probability_distributions as pdm, parzen_estimator as pem
+    npa = NPArr()
+    pdm.np = npa
+    pem.np = npa
+    low = sx.sym_real("low")
+    width = sx.sym_real("width")
+    sx.assume(width >= 0)
+    high = low + width
+    dist = FloatDistribution.__new__(FloatDistribution)
+    dist.low, dist.high, dist.step, dist.log = low, high, None, False
+    kernel_out = sx.sym_float("kernel_output", ("finite", "inf"))
+
+    class TN:
+        @staticmethod
+        def rvs(a, b, loc, scale, random_state):
+            out = np.empty(1, dtype=object)
+            out[0] = kernel_out
+            return out
+
+    class RNG:
+        def choice(self, n, p=None, size=None):
+            return np.zeros(size, dtype=int)
+
+        def rand(self, n):
+            return np.full(n, 0.5)
+    pdm._truncnorm = TN
+    mix = pdm._MixtureOfProductDistribution(weights=np.array([1.0]),
+                                            distributions=[pdm._BatchedTruncNormDistributions(np.array([0.3]), np.array([1.7]), low, high)])
+    arr = mix.sample(RNG(), 1)                                        # REAL code
+    fake_self = type("PE", (), {"_search_space": {"p": dist}, "_is_log": staticmethod(pem._ParzenEstimator._is_log)})()
+    out = pem._ParzenEstimator._untransform(fake_self, arr)          # REAL code
+    v = out["p"][0]
+    sx.reach("sampled")
+    return sx.all_of([v >= low, v <= high])
+
+
+def tpe_far_history_witness():
+    """concrete companion of tpe-stage-continuous with the REAL numeric kernel: TPESampler after 12 trials that used the range
+    (100, 200) for 'x' is asked for 'x' in (0.1, 0.7); every value must be inside the new range"""
+    import warnings
+    t0 = time.time()
+    warnings.simplefilter("ignore")
+    optuna.logging.set_verbosity(optuna.logging.ERROR)
+    bad = []
+    n = 0
+    for seed in (0, 1):
+        for (old, new) in (((100.0, 200.0), (0.1, 0.7)), ((-1e6, -1e5), (3.0, 4.0)), ((0.1, 0.7), (100.0, 200.0))):
+            s = optuna.create_study(sampler=optuna.samplers.TPESampler(seed=seed), storage=InMemoryStorage())
+            s.optimize(lambda t: t.suggest_float("x", *old), n_trials=12)
+            for i in range(6):
+                t = s.ask()
+                x = t.suggest_float("x", *new)
+                n += 1
+                if not (new[0] <= x <= new[1]):
+                    bad.append(dict(seed=seed, earlier_range=old, range=new, value=x))
+                s.tell(t, x)
+    res = {"result": "ok" if not bad else "out-of-range", "queries": 0, "wall_s": time.time() - t0, "programs": n,
+           "samples": [dict(histories=6, draws=n, out_of_range=len(bad))]}
+    if bad:
+        res["cex"] = [{"key": "tpe:continuous-float:out-of-range-after-history-with-distant-range", "pre_replayed": True, "values": {}, "choices": [],
+                       "notes": bad[0], "kind": "concrete-witness",
+                       "message": f"TPESampler returned {bad[0]['value']} for suggest_float('x', {bad[0]['range'][0]}, {bad[0]['range'][1]}) after a history with range {bad[0]['earlier_range']}"}]
+    return res
+
+
 def setup_transform01(concrete):
     setup_kernels(concrete)
 
@@ -573,6 +647,11 @@ def obligations(tier):
     obs.append(Obligation("transform-roundtrip", transform_roundtrip_body, setup_transform01, CODE, bounds=dict(kinds=6, transform_0_1=[True, False]),
                           budget_s=600, classify=classify, require_reach=["roundtrip"],
                           describe="untransform(transform(cfg)) == cfg incl. narrow ranges at large magnitude"))
+    obs.append(Obligation("tpe-stage-continuous", tpe_continuous_stage_body, setup_kernels, CODE, bounds=dict(low_high="z3 reals", kernel_output="ANY real or +-inf"),
+                          budget_s=300, classify=classify, require_reach=["sampled"],
+                          describe="TPE continuous output stage: inside [low, high] whatever the numeric kernel returns"))
+    obs.append(Obligation("tpe-far-history-witness", None, None, [], custom=tpe_far_history_witness,
+                          describe="CONCRETE companion: real TPESampler (real truncated-normal kernel) after a history with a distant range for the same name"))
     for st in ([1, 3] if q else [1, 2, 3, 5, 7]):
         obs.append(Obligation(f"tpe-stage-int-step{st}", make_tpe_stage_body("int", st), setup_kernels, CODE, bounds=dict(low_high="z3 ints", step=st, sample="any point of the truncation interval"),
                               budget_s=600, classify=classify, require_reach=["sampled"], describe=f"TPE discrete output stage + _untransform, IntDistribution step={st}"))
